@@ -67,7 +67,7 @@ IfOps ==        \* asmif.c
 
 PseudoOps ==    \* asmallg.c Pseudos[] + CodeGlobalPseudo specials + errmsg/section helpers
   { R("ALIGN", "ps", 1, 2, "none"), R("ASEG", "ps", 0, 0, "none"), R("ASSUME", "ps", 1, AMAX, "none"),
-    R("BINCLUDE", "ps", 1, 3, "mfatal"), R("CHARSET", "ps", 0, 3, "none"), R("CODEPAGE", "ps", 1, 2, "none"),
+    R("BINCLUDE", "ps", 1, 3, "mfatal"), R("CHARSET", "ps", 0, 3, "mfatal"), R("CODEPAGE", "ps", 1, 2, "none"),
     R("CPU", "ps", 1, 1, "none"), R("DEPHASE", "ps", 0, 0, "ph-"), R("END", "ps", 0, 1, "end"),
     R("ENDEXPECT", "ps", 0, 0, "ex-"), R("ENDS", "ps", 0, 1, "st-"), R("ENDSECTION", "ps", 0, 1, "se-"),
     R("ENDSTRUC", "ps", 0, 1, "st-"), R("ENDSTRUCT", "ps", 0, 1, "st-"), R("ENDUNION", "ps", 0, 1, "st-"),
